@@ -404,6 +404,16 @@ UNITS['U31k'] = dict(
     assumptions=['Planner stand-in: reset() only counted'],
     not_covered=['encoding_range (where min / max come from)', 'the choice of subtract_offset and the fuse / unfuse of NULLs around the packed field', 'BitPack / BitUnpack operators (shift and mask application)'])
 
+UNITS['U32k'] = dict(
+    kind='kani', crate='kani/U32', timeout_s=600, mem_gb=8, jobs=2,
+    title='packed grouping key: BitShiftLeftAdd::perform and BitUnpackOperator::execute (slice) are inverse for every field layout within 63 bits - induction step over the fields (complete: every shift, width, field value)',
+    harnesses=[dict(name='proofs::pack_then_unpack_is_identity', unwind=3, clause='key = lower + (value << shift) stays below 2^(shift+width); unpack(key, shift, width) == value; unpack(key, s, w) == unpack(lower, s, w) for every earlier field', fn='BitShiftLeftAdd::perform / BitUnpackOperator::execute[slice]'),
+               dict(name='proofs::widest_field', unwind=3, clause='unpack(v, 0, 63) == v for every v >= 0, no arithmetic panic', fn='BitUnpackOperator::execute[slice]'),
+               dict(name='proofs::vx_canary', expect_fail=True)],
+    assumptions=['A-ind-scheme: a key of n fields is built by n - 1 BitShiftLeftAdd steps, lowest field first (try_bitpacking; U31k covers the width accounting)',
+                 'R6: scratchpad bindings of BitUnpackOperator::execute lifted to parameters; the element loop is run on one element (the body does not depend on the position)'],
+    not_covered=['ParameterizedVecVecIntegerOperator::execute zip loop', 'fuse_int_nulls / unfuse_int_nulls around nullable fields'])
+
 UNITS['U24k'] = dict(
     kind='kani', crate='kani/U24', timeout_s=600, mem_gb=12, jobs=2,
     title='BOUNDED (names <= 2 ASCII characters): storage.rs sanitize_table_name - cleaning steps after lower-casing (slice) and the verbatim-or-digest decision (expression slice)',
@@ -455,7 +465,7 @@ PROPS = {
                 level_note='per-partition planning, executor streaming, disk read scheduling and thread count are glue and not covered: the check catches a broken merge/combine primitive or a broken key-merge chain, not a broken executor',
                 technique='contract-based deductive verification (Verus + Kani complete harnesses) of extracted functions',
                 assumptions=[], not_covered=['executor stage partitioning / streaming', 'batch_merging::combine: ORDER BY branch and single-key branch', 'disk read scheduler']),
-    'C04': dict(level='proof', units=['U09k', 'U09v', 'U09m', 'U10', 'U19', 'U20k', 'U01', 'U29', 'U31k'],
+    'C04': dict(level='proof', units=['U09k', 'U09v', 'U09m', 'U10', 'U19', 'U20k', 'U01', 'U29', 'U31k', 'U32k'],
                 level_text='complete Kani proofs of accumulate/combine kernels; Verus proofs of dedup-merge / merge_drop / merge_keep kernels and bitmap primitives',
                 level_note='grouping-key construction, hash-map grouping and the final pass are not covered',
                 technique='contract-based deductive verification (Verus + Kani complete harnesses) of extracted functions',
